@@ -771,16 +771,18 @@ def main():
     simjobs = [("rwm", ("hard",), 1.0), ("tpcn", ("hard",), 0.5), ("tpcn", ("periodic",), 0.9), ("tpcn", ("reflective",), 0.9)]
     if not quick:
         simjobs += [("rwm", ("periodic",), 1.0), ("rwm", ("reflective",), 1.0)]
-    f_sim = {f"{k}:{kd[0]}": pp.submit(simulate_continuous, k, kd, ck.seed + 3, nsim, 12, sg) for k, kd, sg in simjobs}
+    nof = lambda k, kd: nsim * (2 if (k, kd) == ("tpcn", ("hard",)) else 1)  # noqa: E731  (the tpCN wall effect is the weakest)
+    f_sim = {f"{k}:{kd[0]}": pp.submit(simulate_continuous, k, kd, ck.seed + 3, nof(k, kd), 12, sg) for k, kd, sg in simjobs}
 
     def sim_results():
         out = {}
         for name, f in f_sim.items():
             h = f.result()
-            z = zscores(h, nsim)
-            edge = (h[0] + h[-1] - nsim / 4.0) / math.sqrt(nsim * 0.25 * 0.75)
+            ns = sum(h)
+            z = zscores(h, ns)
+            edge = (h[0] + h[-1] - ns / 4.0) / math.sqrt(ns * 0.25 * 0.75)
             out[name] = {"hist": h, "z": [round(x, 2) for x in z], "edge_z": round(edge, 2), "chi2": round(sum(x * x for x in z) * 7 / 8, 1),
-                         "n": nsim, "sweeps": 12, "sigma": dict((f"{k}:{kd[0]}", sg) for k, kd, sg in simjobs)[name]}
+                         "n": ns, "sweeps": 12, "sigma": dict((f"{k}:{kd[0]}", sg) for k, kd, sg in simjobs)[name]}
         return out
 
     states = trans_n = 0
